@@ -189,4 +189,8 @@ def introspect_rules(run, model, rule):
                                 c = g.ifs[0]
                                 txt = src_of(c)
                                 ok = pn is not None and txt in ("%s.default == inspect.Parameter.empty" % pn, "%s.default is inspect.Parameter.empty" % pn, "%s.default == inspect._empty" % pn, "%s.default is inspect._empty" % pn)
+                                if not ok and pn is not None and isinstance(c, ast.Compare) and len(c.ops) == 1 and isinstance(c.ops[0], (ast.Eq, ast.Is)) and src_of(c.left) == "%s.default" % pn:
+                                    # the sentinel through a module-level name bound to it
+                                    rt_ = strip_sites(flow.term(c.comparators[0], n))
+                                    ok = rt_ in (("attr", ("attr", ("module", "inspect"), "Parameter"), "empty"), ("attr", ("module", "inspect"), "_empty"))
                     run.check(ok, rule, construct, "names of the parameters without a default value", "is not `[name for name, param in signature(%s).parameters.items() if param.default is empty]`: %s" % (subject, first_line(n.stmt)), fi.loc(n), None, first_line(n.stmt))
